@@ -249,4 +249,86 @@ Fixpoint distinct_keys (cols : list col) : bool :=
   | c :: r => negb (existsb (fun c' => Nat.eqb (ckey c) (ckey c')) r) && distinct_keys r
   end.
 
+(* ---- insert(t).values([row0, row1, ...]) : crud._extend_values_for_multiparams ---- *)
+(* the VALUES column list is decided by row 0 (_scan_cols): its keys plus every column with a Python or SQL
+   default; per later row and per such column: "if col.key in row" -> that row's value (None included),
+   else _process_multiparam_default_bind: the default again (a fresh prefetch bind per row, or the inline
+   SQL), or CompileError for a column without such a default.  Columns outside the list (server default /
+   no default, not in row 0) are not part of the statement whatever a later row supplies. *)
+Definition in_values0 (p0 : pset) (c : col) : bool :=
+  match plan_col p0 c with SAbsent => false | _ => true end.
+Inductive merr : Type := EMultiDefault (row : nat) (key : nat).
+Fixpoint multi_check_row (p0 : pset) (i : nat) (cols : list col) (row : pset) : option merr :=
+  match cols with
+  | [] => None
+  | c :: r =>
+      if in_values0 p0 c && negb (has (ckey c) row) &&
+         match cdef c with NoDefault | ServerSide _ => true | _ => false end
+      then Some (EMultiDefault i (ckey c)) else multi_check_row p0 i r row
+  end.
+Fixpoint multi_check (p0 : pset) (i : nat) (cols : list col) (rows : list pset) : option merr :=
+  match rows with
+  | [] => None
+  | row :: t => match multi_check_row p0 i cols row with
+                | Some e => Some e
+                | None => multi_check p0 (S i) cols t
+                end
+  end.
+(* one row of the executed statement: the stored values and the calls made (all rows share ONE parameter
+   dictionary; the prefetch binds fire row by row, in column order) *)
+Fixpoint multi_row (p0 : pset) (cols : list col) (row : pset) (cs : calls) : pset * calls :=
+  match cols with
+  | [] => ([], cs)
+  | c :: r =>
+      if in_values0 p0 c then
+        match get (ckey c) row with
+        | Some v => let '(t, cs') := multi_row p0 r row cs in ((ckey c, v) :: t, cs')
+        | None =>
+            match cdef c with
+            | Scalar z => let '(t, cs') := multi_row p0 r row cs in ((ckey c, Some z) :: t, cs')
+            | Callable f =>
+                let '(t, cs') := multi_row p0 r row (bump f cs) in ((ckey c, Some (cval f (count f cs))) :: t, cs')
+            | CtxCallable f =>
+                let '(t, cs') := multi_row p0 r row (bump f cs) in
+                ((ckey c, Some (ctxval f row (count f cs))) :: t, cs')
+            | SqlExpr e => let '(t, cs') := multi_row p0 r row cs in ((ckey c, Some (sqlval e)) :: t, cs')
+            | _ => let '(t, cs') := multi_row p0 r row cs in ((ckey c, None) :: t, cs')   (* excluded by multi_check *)
+            end
+        end
+      else
+        let '(t, cs') := multi_row p0 r row cs in
+        ((ckey c, match cdef c with ServerSide e => Some (srvval e) | _ => None end) :: t, cs')
+  end.
+Fixpoint multi_rows (p0 : pset) (cols : list col) (rows : list pset) (cs : calls) : list pset * calls :=
+  match rows with
+  | [] => ([], cs)
+  | row :: t => let '(a, cs1) := multi_row p0 cols row cs in
+                let '(b, cs2) := multi_rows p0 cols t cs1 in (a :: b, cs2)
+  end.
+Definition multi_exec (cols : list col) (rows : list pset) (cs : calls) : list pset * calls + merr :=
+  match rows with
+  | [] => inl ([], cs)
+  | p0 :: _ => match multi_check p0 O cols rows with
+               | Some e => inr e
+               | None => inl (multi_rows p0 cols rows cs)
+               end
+  end.
+(* how often the callable of column [c] must be called: once per row that omits the column *)
+Definition omitting (c : col) (rows : list pset) : nat := length (filter (fun row => negb (has (ckey c) row)) rows).
+
+(* ---- Update.ordered_values((col, value), ...) : the "_maintain_values_ordering" branch of _scan_cols ---- *)
+(* the columns are scanned in the order given, FOLLOWED BY every other column of the table (whose onupdate
+   defaults therefore still fire) *)
+Definition ordered_cols (order : list nat) (cols : list col) : list col :=
+  flat_map (fun k => filter (fun c => Nat.eqb (ckey c) k) cols) order ++
+  filter (fun c => negb (existsb (Nat.eqb (ckey c)) order)) cols.
+(* back to table column order, for comparing rows *)
+Definition table_order (cols : list col) (row : pset) : pset :=
+  map (fun c => (ckey c, match get (ckey c) row with Some v => v | None => None end)) cols.
+
+(* ---- a pre-executed default (fallback(c) in _process_execute_defaults: SQL expression / sequence for a
+   primary key when RETURNING is not used): "val = fallback(c); if val is not None: param[key] = val" ---- *)
+Definition preexec_param (current : val) (fetched : val) : val :=
+  match fetched with Some z => Some z | None => current end.
+
 End D.
